@@ -9,19 +9,28 @@
 (* (ConsensusDeployment), chaincfg/deployment_time_frame.go (median-time   *)
 (* starter / ender), blockchain/validate.go (rules gated on a deployment). *)
 (*                                                                         *)
-(* Two layers.                                                             *)
+(* Two layers, both defined in BIP9.tla over a (definitions, tree) pair:    *)
 (*  - Property layer: Ref(d, n), the BIP9 function (with the speedy-trial, *)
 (*    minimum-activation-height and always-active-height extensions the    *)
 (*    deployment definition carries) evaluated window by window from the   *)
-(*    genesis block, without any memory.  Everything the binder compares   *)
-(*    the real code with is taken from this layer.                         *)
+(*    genesis block, without any memory; NV(n), the bits of the version    *)
+(*    proposed for the next block; Gate(n), the deployments whose rules    *)
+(*    bind the next block.  Everything the binder compares the real code   *)
+(*    with is taken from this layer (NodeOracle, carried in `last.exp').   *)
 (*  - Implementation layer: CachedEval, written like thresholdState: jump  *)
 (*    to the last block of the previous window, walk back over window      *)
 (*    boundaries to the nearest cached (or not-yet-started) one, then      *)
 (*    transition forward and fill the cache.  ONE cache per deployment,    *)
-(*    shared by all branches of the block tree.  Query / NextVer are       *)
-(*    explicit actions so that TLC explores every order of queries, at     *)
-(*    every node of every branch, interleaved with block arrival.          *)
+(*    shared by all branches of the block tree.                            *)
+(* This module adds the state: the tree grows block by block (AddBlock,    *)
+(* which itself asks for the Implicit deployments like checkBlockContext   *)
+(* does), Query / NextVer are explicit actions so that TLC explores every  *)
+(* order of queries, at every node of every branch, interleaved with block *)
+(* arrival.  Invariants: the cached answer is the reference whatever was   *)
+(* asked before (QueryIsRef, CacheSound), Active / Failed are absorbing    *)
+(* along every branch (StateMachine), the gate opens at the first block of *)
+(* the Active window (GateFirst), the next version carries exactly the     *)
+(* Started / LockedIn bits (NextVersionExact).                             *)
 (*                                                                         *)
 (* State convention (the code's): the state "at node n" is the state for   *)
 (* the block AFTER n (n is prevNode).                                      *)
